@@ -285,7 +285,8 @@ def _eagerly_noticed(sem, r):
         st = sem.state(r.step)
     except KeyError:
         return True
-    if st.stuck_at is not None and r.stage in ("crashed", "closed"):
+    if st.stuck_at is not None and r.stage in ("crashed", "closed", "failed"):
+        # (`failed` is the corresponding stage of a loop step that never gets to execute)
         return False
     if st.stuck_at == "deploy" and r.stage == "deploy_failed":
         return False
